@@ -45,7 +45,12 @@ def structure_case(draw, tier):
             "start": start, "mode": draw(st.sampled_from(MODES + ["both"])),
             "entry": draw(st.sampled_from(ENTRIES)),
             # what the `leave` callback does with the list it was handed, once it has read it ("all callbacks")
-            "mutate": draw(st.sampled_from(["no", "no", "append", "clear", "sort-reverse"]))}
+            "mutate": draw(st.sampled_from(["no", "no", "append", "clear", "sort-reverse"])),
+            # what `enter` returns: a unique token, the depth below the start node (0 at the start node), or values
+            # that are falsy without being None
+            "values": draw(st.sampled_from(["token", "token", "depth", "falsy"])),
+            # the same callback objects are first used on another tree (a decoy), then on this one
+            "reuse": draw(st.integers(0, 3)) == 0}
 
 
 def _tree_of(parents):
@@ -55,7 +60,7 @@ def _tree_of(parents):
     return Tree(n, id=np.arange(n, dtype=np.int32), pid=np.array(parents, dtype=np.int32))
 
 
-def _run_traverse(parents, start, mode, entry, enter, leave):
+def _run_traverse(parents, start, mode, entry, enter, leave, current=None):
     from swcgeom.core.swc_utils import traverse
 
     kw = {}
@@ -68,6 +73,8 @@ def _run_traverse(parents, start, mode, entry, enter, leave):
         topo = (np.arange(n, dtype=np.int32), np.array(parents, dtype=np.int32))
         return traverse(topo, root=start, **kw)
     tree = _tree_of(parents)
+    if current is not None:
+        current[0] = tree
     if entry == "tree":
         return tree.traverse(root=start, **kw)
     return tree.node(start).traverse(**kw)
@@ -78,6 +85,7 @@ def run_structure(case, ctx):
     n = len(parents)
     ch = models.children(parents)
     sub = models.descendants_or_self(parents, start)
+    ctx.cls("enter-returns:" + case.get("values", "token"))
     ctx.cls("entry:" + entry, "mode:" + mode, "shape:" + case["shape"], "leave-callback-mutates-its-argument:" + case.get("mutate", "no"))
     if case["permuted"]:
         ctx.cls("permuted")
@@ -91,24 +99,41 @@ def run_structure(case, ctx):
     left = {}  # id -> (seq, received list, token)
     order_err = []
 
+    current = [None]  # the tree being traversed (Tree entry points)
+
     def nid(x):
         if entry == "swc_utils":
             return int(x)
         i = int(x.id)
         if int(x.idx) != i:
             order_err.append(f"node handle idx {x.idx} != id {i}")
+        if current[0] is not None and x.attach is not current[0]:
+            order_err.append(f"callback received a handle of node {i} that is not attached to the traversed tree")
         return i
 
+    FALSY = [0, False, "", (), 0.0, b""]
+    values = case.get("values", "token")
+    live = [True]  # False while the callbacks run on the decoy tree
+
     def enter(x, pv):
+        if not live[0]:
+            return ("decoy", int(x) if entry == "swc_utils" else int(x.id))
         i = nid(x)
         clock[0] += 1
         if i in entered:
             order_err.append(f"enter called twice for node {i}")
-        tok = ("E", i, clock[0])
+        if values == "depth":
+            tok = 0 if i == start else (pv + 1 if isinstance(pv, int) else -10 ** 6)
+        elif values == "falsy":
+            tok = FALSY[(i + clock[0]) % len(FALSY)]
+        else:
+            tok = ("E", i, clock[0])
         entered[i] = (clock[0], pv, tok)
         return tok
 
     def leave(x, cvs):
+        if not live[0]:
+            return ("decoy",)
         i = nid(x)
         clock[0] += 1
         if i in left:
@@ -125,7 +150,14 @@ def run_structure(case, ctx):
                 cvs.reverse()
         return tok
 
-    ret = _run_traverse(parents, start, mode, entry, enter, leave)
+    if case.get("reuse"):
+        # the same callables on another tree first: nothing of that traversal may show in this one
+        live[0] = False
+        decoy = [-1] + [max(0, k - 2) for k in range(1, n + 3)]
+        _run_traverse(decoy, 0, mode, entry, enter, leave)
+        live[0] = True
+        ctx.cls("callbacks-reused-from-another-tree")
+    ret = _run_traverse(parents, start, mode, entry, enter, leave, current)
     ctx.check(not order_err, "exactly-once", lambda: "; ".join(order_err[:3]))
     if mode in ("enter", "both"):
         ctx.check(set(entered) == sub, "enter/visits-exactly-the-subtree",
@@ -135,7 +167,7 @@ def run_structure(case, ctx):
                 ctx.check(pv is None, "enter/start-receives-nothing", lambda: f"start node received {pv!r}")
             else:
                 pseq, _, ptok = entered[parents[i]]
-                ctx.check(pv is ptok or pv == ptok, "enter/receives-parents-value",
+                ctx.check(pv is ptok or (pv == ptok and type(pv) is type(ptok)), "enter/receives-parents-value",
                           lambda: f"node {i} received {pv!r}, its parent {parents[i]} returned {ptok!r}")
                 ctx.check(pseq < seq, "enter/after-parent", f"node {i} entered before its parent")
     if mode in ("leave", "both"):
@@ -230,7 +262,8 @@ SUBCHECKS = [
     Sub("structure", structure_case, run_structure, quick=4000, thorough=60000, shards_quick=4,
         required={"entry:swc_utils": 50, "entry:tree": 50, "entry:node": 50, "mode:both": 100,
                   "permuted": 100, "start-not-root": 200, "shape:chain": 20, "shape:star": 20,
-                  "leave-callback-mutates-its-argument:append": 100, "leave-callback-mutates-its-argument:clear": 100}),
+                  "leave-callback-mutates-its-argument:append": 100, "leave-callback-mutates-its-argument:clear": 100,
+                  "enter-returns:depth": 100, "enter-returns:falsy": 100, "callbacks-reused-from-another-tree": 100}),
     Sub("deep", deep_case, run_deep, quick=24, thorough=96, shards_quick=4,
         required={"limited-recursion": 4, "deep:chain": 2, "deep:caterpillar": 2}),
 ]
